@@ -44,7 +44,10 @@ LEVEL_TEXT = (
     "properties: register allocation validated per frame on each target (C06), riscv/arm/thumb encodings, fields and relocations "
     "(C08, C10, C11), linker layout (C12). Everything else is covered only by a failing-input search that proves nothing: riscv "
     "and riscv:rvc images of generated IR functions executed in the Lean RV32 interpreter, and x86-64 code executed natively, "
-    "both compared with the reference IR semantics Spec.IR. ARM, Thumb, m68k, MIPS execution: not covered at all.")
+    "both compared with the reference IR semantics Spec.IR. ARM, Thumb, m68k, MIPS execution: not covered at all. OPEN FINDING "
+    "(reproduced on every run by a static check of the selected instruction lists on ten targets): the mips back end emits nothing "
+    "for a conditional jump (pattern_cjmp is a stub and the mips ISA defines no conditional branch instruction), so every mips "
+    "function with a branch is miscompiled.")
 LEVEL_NOTE = (
     "trusted: Lean kernel; axioms propext/Classical.choice/Quot.sound; hand models of Frame.alloc, Li / rvc constant patterns, "
     "determine_arg_locations, PeepHoleStream tied to the source by sampled differential runs (exhaustive for signatures of <= 3 "
@@ -599,7 +602,74 @@ def irser_text(g):
         return "?"
 
 
+CJUMP_TARGETS = ["x86_64", "arm", "arm:thumb", "riscv", "riscv:rvc", "m68k", "mips", "xtensa", "or1k", "microblaze"]
+
+
+def cjump_structural(ctx):
+    """static check, no execution: for every target and every IR condition the instruction list selected for
+    `cjmp a <cond> b ? yes : no` must contain a conditional control transfer - an instruction whose `jumps` names the `yes`
+    label together with a second continuation, followed (directly or through the second continuation) by the way to `no`.
+    Reproduces the open finding `mips:cjmp-not-emitted` on every run; any other target failing is a new signature."""
+    from ppci import api, ir
+    from ppci.codegen import registerallocator as RA
+    frames = []
+    orig = RA.GraphColoringRegisterAllocator.alloc_frame
+
+    def wrap(self, frame):
+        frames.append(frame)
+        return orig(self, frame)
+
+    def mod(cond, t):
+        m = ir.Module("cj")
+        f = ir.Function("f", ir.Binding.GLOBAL, t)
+        m.add_function(f)
+        e, y, n = ir.Block("cj_entry"), ir.Block("cj_yes"), ir.Block("cj_no")
+        for blk in (e, y, n):
+            f.add_block(blk)
+        f.entry = e
+        a, b = ir.Parameter("a", t), ir.Parameter("b", t)
+        f.add_parameter(a)
+        f.add_parameter(b)
+        e.add_instruction(ir.CJump(a, cond, b, y, n))
+        y.add_instruction(ir.Return(a))
+        n.add_instruction(ir.Return(b))
+        return m
+    RA.GraphColoringRegisterAllocator.alloc_frame = wrap
+    try:
+        for march in CJUMP_TARGETS:
+            for t in (ir.i32, ir.u32):
+                for cond in ir.CJump.conditions:
+                    del frames[:]
+                    case = {"march": march, "ir": f"f(a, b): cjmp a {cond} b ? yes : no  ({t.name})"}
+                    try:
+                        api.ir_to_object([mod(cond, t)], march)
+                    except Exception as e:  # noqa   selector holes are C29's subject
+                        ctx.count("cjump_codegen_error_" + march.replace(":", "_") + "_" + type(e).__name__)
+                        continue
+                    ctx.count("eval_cjump_structure")
+                    ctx.nontrivial((march, t.name, cond))
+                    ins = list(frames[0].instructions) if frames else []
+
+                    def names(i):
+                        return [getattr(x, "name", None) for x in (i.jumps or [])]
+                    cond_ins = [i for i in ins if getattr(i, "jumps", None) and len(i.jumps) >= 2]
+                    reach = {nm for i in ins if getattr(i, "jumps", None) for nm in names(i) if nm}
+                    if not cond_ins:
+                        ctx.fail(f"{march}:cjmp-not-emitted",
+                                 f"{march}: the instruction list selected for `cjmp a {cond} b ? yes : no` ({t.name}) contains no conditional control transfer "
+                                 f"(jump-carrying instructions: {[type(i).__name__ for i in ins if getattr(i, 'jumps', None)]}): the block falls through", case)
+                    elif "cj_yes" not in reach or "cj_no" not in reach:
+                        # a target label may also be reached by falling through; flag only when a label is neither jumped to nor placed behind the branch
+                        labels_after = [getattr(i, "name", None) for i in ins]
+                        missing = [l for l in ("cj_yes", "cj_no") if l not in reach and l not in labels_after]
+                        if missing:
+                            ctx.fail(f"{march}:cjmp-target-unreachable", f"{march}: `cjmp a {cond} b`: no jump to {missing}", case)
+    finally:
+        RA.GraphColoringRegisterAllocator.alloc_frame = orig
+
+
 def check(ctx):
+    cjump_structural(ctx)
     parts = [cgslivers.frame_alloc(ctx), cgslivers.riscv_consts(ctx), cgslivers.riscv_imm_patterns(ctx), cgslivers.arg_locations(ctx),
              cgslivers.riscv_frames(ctx)]
     x86_native = exec_search(ctx, parts)
